@@ -7,6 +7,7 @@ import (
 	"fmt"
 	"io"
 	"net"
+	"os"
 	"time"
 
 	"nhooyr.io/websocket"
@@ -284,6 +285,7 @@ func c18Endings(r *Run) {
 	var got []byte
 	var errs []error
 	closeAtOnce := t.Pct(40)
+	deadlineAfterEOF := false
 	r.S.Go("reader", func() {
 		buf := make([]byte, bufSize)
 		for len(errs) < 3 {
@@ -291,6 +293,15 @@ func c18Endings(r *Run) {
 			got = append(got, buf[:n]...)
 			if err != nil {
 				errs = append(errs, err)
+				if len(errs) == 1 && !closeAtOnce && err == io.EOF && nMsgs%2 == 0 {
+					// after the clean end of the stream an idle read deadline passes (an
+					// application that keeps its deadline handling going): the reads that
+					// follow must still return, with io.EOF or the deadline error
+					nc.SetReadDeadline(time.Now().Add(time.Millisecond))
+					r.S.Sleep(20 * time.Millisecond)
+					r.S.Count("probe.idle-read-deadline-after-eof")
+					deadlineAfterEOF = true
+				}
 				if len(errs) == 1 && closeAtOnce {
 					// the application gives up on the connection right after the failed
 					// Read: whatever the adapter had to do because of the failure (the
@@ -338,6 +349,10 @@ func c18Endings(r *Run) {
 	switch ending {
 	case 0, 1:
 		for i, e := range errs {
+			var ne net.Error
+			if deadlineAfterEOF && i > 0 && (errors.Is(e, context.DeadlineExceeded) || errors.Is(e, os.ErrDeadlineExceeded) || errors.As(e, &ne) && ne.Timeout()) {
+				continue // (an expired idle deadline is reported until it is reset)
+			}
 			if e != io.EOF {
 				r.Violate("eof-expected", sig, "close code %d: Read #%d after the close returned %v instead of io.EOF", code, i, e)
 				break
